@@ -427,11 +427,13 @@ impl FileReader for RealFileReader {
 
     fn metadata(&self, path: &Path) -> io::Result<(u64, u64)> {
         let metadata = fs::metadata(path)?;
+        // A modification time before 1970 has no unsigned second. The file is still readable and
+        // must be counted: u64::MAX never equals the second of a stored entry and is never stored
+        // itself (racy-clean rule), so such a file is simply counted without the cache
         let mtime = metadata
             .modified()?
             .duration_since(std::time::UNIX_EPOCH)
-            .map_err(io::Error::other)?
-            .as_secs();
+            .map_or(u64::MAX, |d| d.as_secs());
         let size = metadata.len();
         Ok((mtime, size))
     }
